@@ -1,7 +1,7 @@
 """Gen/Classes.v : per operation class -- init-able fields, channel template, default duration strategy and what copy()
 transfers -- read from the two circuit_operations.py files with `ast` (fail-closed)."""
 import ast
-from pycoq import parse_file, TranslateError, fail
+from pycoq import parse_file, TranslateError, fail, norm_function
 
 SRC_A = 'src/qce_circuit/structure/circuit_operations.py'
 SRC_B = 'src/qce_circuit/addon_stim/circuit_operations.py'
@@ -110,6 +110,9 @@ def copy_spec(cls):
                            or   result = C(...); result.f = <same shapes>; ...; return result"""
     for s in cls.body:
         if isinstance(s, ast.FunctionDef) and s.name == 'copy':
+            # locals that only name an argument of the constructor call (`c = self.k.copy(..)` ... `k=c`) are substituted back
+            # (pycoq N1 + N4: the evaluation order of the `.copy(...)` calls is checked to be unchanged)
+            s = norm_function(s, guards=False, accumulate=False, helpers=False)
             body = [x for x in s.body if not (isinstance(x, ast.Expr) and isinstance(x.value, ast.Constant))]
             if not body or not isinstance(body[-1], ast.Return):
                 fail(s, f"{cls.name}.copy: does not end in a return")
@@ -217,6 +220,15 @@ def qfield_index(c, fld):
     return qf.index(fld)
 
 
+def is_lookup_get(v, ref_field):
+    """`relation_transfer_lookup.get(self.<ref_field>[, None])`: the transferred value written in place (what the local of the
+    other accepted shape is assigned from in /repo)"""
+    return (isinstance(v, ast.Call) and isinstance(v.func, ast.Attribute) and v.func.attr == 'get'
+            and isinstance(v.func.value, ast.Name) and v.func.value.id == 'relation_transfer_lookup' and not v.keywords
+            and len(v.args) in (1, 2) and ast.unparse(v.args[0]) == f"self.{ref_field}"
+            and (len(v.args) == 1 or (isinstance(v.args[1], ast.Constant) and v.args[1].value is None)))
+
+
 def link_copy_spec(repo):
     """RelationLink.copy / MultiRelationLink.copy: which fields of the link the returned copy receives from self"""
     tree = parse_file(f"{repo}/{SRC_L}")
@@ -234,7 +246,7 @@ def link_copy_spec(repo):
             fail(fn, f"{cname}.copy: expected a single `return {cname}(keyword=...)`")
         kw = kwmap(rets[0].value)
         same = {k for k, v in kw.items() if isinstance(v, ast.Attribute) and isinstance(v.value, ast.Name) and v.value.id == 'self' and v.attr == k}
-        if ref_field not in kw or not isinstance(kw[ref_field], ast.Name):
+        if ref_field not in kw or not (isinstance(kw[ref_field], ast.Name) or is_lookup_get(kw[ref_field], ref_field)):
             fail(fn, f"{cname}.copy: {ref_field} is not a transferred local")
         for k in kw:
             if k != ref_field and k not in same:
